@@ -39,23 +39,29 @@ class LogManager:
         return f"<LM {self.i}>"
 
     def __enter__(self) -> "LogManager":
+        self.env.probe("enter")
         self.env.log.append(("entered", self.i, self))
         return self._value()
 
     def __exit__(self, *exc: Any) -> bool:
         self.env.log.append(("exit-begin", self.i, self))
+        self.env.probe("exit")
         self.env.log.append(("exit-end", self.i, self))
         return self.swallow and exc[0] is not None and issubclass(exc[0], Err)
 
     async def __aenter__(self) -> "LogManager":
+        self.env.probe("aenter")
         await _trap()
+        self.env.probe("aenter")
         self.env.log.append(("entered", self.i, self))
         return self._value()
 
     async def __aexit__(self, *exc: Any) -> bool:
         self.env.log.append(("exit-begin", self.i, self))
+        self.env.probe("aexit")
         try:
             await _trap()
+            self.env.probe("aexit")
         finally:
             # __aexit__ returns (or is left by an exception thrown in): either way it is over
             self.env.log.append(("exit-end", self.i, self))
@@ -72,6 +78,28 @@ class Env:
         self.script = script
         self.log: List[Tuple[str, int, Any]] = []
         self.ncalls: Dict[int, int] = {}
+        self.prog_code: Any = None       # set for the running-frame corpus
+        self.on_probe: Any = None
+
+    def p(self) -> None:
+        self.probe("body")
+
+    def probe(self, where: str) -> None:
+        """Called from inside the program's body, or from inside a manager method, while the
+        program's frame is RUNNING on this thread."""
+        if self.on_probe is None or self.prog_code is None:
+            return
+        import sys as _sys
+
+        fr: Any = _sys._getframe(1)
+        inner = None
+        while fr is not None and fr.f_code is not self.prog_code:
+            inner = fr
+            fr = fr.f_back
+        if fr is None:
+            return
+        active, exiting = self.truth()
+        self.on_probe(fr, inner, active, exiting, where)
 
     def m(self, i: int, shape: str = "self") -> LM:
         return LM(self, i, False, shape)
@@ -184,10 +212,20 @@ class Observation:
             setattr(self, k, v)
 
 
-def drive(prog: Any, kind: str, script: Tuple[bool, ...], throw_at: Optional[int], on_suspend: Any) -> None:
+def drive(prog: Any, kind: str, script: Tuple[bool, ...], throw_at: Optional[int], on_suspend: Any,
+          on_probe: Any = None) -> None:
     """Run prog(E) to completion; call on_suspend(Observation) at every suspension
     of prog's own frame (including while a manager's __aenter__/__aexit__ is what is suspended)."""
     env = Env(script)
+    if on_probe is not None:
+        env.prog_code = prog.__code__
+        env.on_probe = on_probe
+    if kind == "func":
+        try:
+            prog(env)
+        except Err:
+            pass
+        return
     obj = prog(env)
     if kind == "gen":
         frame_of = lambda: obj.gi_frame  # noqa: E731
@@ -320,4 +358,35 @@ def observe_all(src: str, kind: str, want_real: bool = True, trickery: Optional[
             out.append({"driver_error": repr(ex), "script": script, "throw_at": throw_at})
         if throw_at is not None and nsusp[0] <= throw_at:
             continue
+    return out
+
+
+def probe_all(src: str, kind: str) -> List[Dict[str, Any]]:
+    """Running-frame observations: the real contexts_active_in_frame called from inside the body,
+    and from inside every __enter__/__exit__/__aenter__/__aexit__, on the program's RUNNING frame."""
+    from stackscope import _lowlevel
+
+    prog = compile_prog(src)
+    out: List[Dict[str, Any]] = []
+    for script, throw_at in all_runs(src):
+        if kind == "func" and throw_at is not None:
+            continue
+
+        def on_probe(fr: Any, inner: Any, active: List[Any], exiting: Any, where: str, script=script, throw_at=throw_at) -> None:
+            rec: Dict[str, Any] = {"lasti": fr.f_lasti, "active": list(active), "exiting": exiting, "where": where,
+                                   "script": script, "throw_at": throw_at}
+            with warnings.catch_warnings(record=True) as w, contextlib.redirect_stderr(io.StringIO()):
+                warnings.simplefilter("always")
+                try:
+                    ctxs = _lowlevel.contexts_active_in_frame(fr, None, inner)
+                    rec["real"] = [(c.obj, c.is_async, c.is_exiting, c.varname, c.start_line) for c in ctxs]
+                except Exception as ex:
+                    rec["real_exc"] = repr(ex)
+            rec["warnings"] = [str(x.message) for x in w if issubclass(x.category, _lowlevel.InspectionWarning)]
+            out.append(rec)
+
+        try:
+            drive(prog, kind, script, throw_at, lambda ob: None, on_probe)
+        except Exception as ex:
+            out.append({"driver_error": repr(ex), "script": script, "throw_at": throw_at})
     return out
